@@ -73,8 +73,8 @@ def check(ctx):
                 jobs.append((loc, root, g, rep))
     evs = []
     for n, (loc, root, g, rep) in enumerate(jobs):
-        plan = {"files": [{"id": i, "path": os.path.join(root, i)} for i in ids], "rounds": 3 if thorough else 2,
-                "goroutines": 32 if thorough else 16, "seed": ctx.seed * 100 + n,
+        plan = {"files": [{"id": i, "path": os.path.join(root, i)} for i in ids], "rounds": 3 if thorough else 1,
+                "goroutines": 32 if thorough else 12, "seed": ctx.seed * 100 + n,
                 "label": "proc%d dir=%s GOMAXPROCS=%d" % (n, loc, g)}
         pp = os.path.join(ctx.scratch, "plan%d.json" % n)
         out = os.path.join(ctx.scratch, "run%d.ndjson" % n)
